@@ -908,6 +908,35 @@ def r_latts_k0(cx):
               "the k_0 derived from lat_ts replaces a given k_0 (it depends on lat_ts and the ellipsoid only)" if ok else
               "merc::new derives the k_0 it stores from %s: with both lat_ts and k_0 given, the scale on the parallel "
               "lat_ts is no longer unity" % ", ".join(sorted(ks)), cx.where(f.term(bb)["span"]))
+        # the scale on the parallel lat_ts is an even function of lat_ts (the parallels +lat_ts and -lat_ts are the same
+        # pair of lines): the decision to apply it must be even too - a test of lat_ts against zero for (in)equality, or
+        # of its magnitude, not an ordered comparison of the signed value (`lat_ts > 0` ignores southern values)
+        import slicing
+        import guards
+        cd = slicing.control_deps(f)
+        seen, work, ats = set(), [bb], set()
+        while work:
+            x = work.pop()
+            for a in cd.get(x, ()):
+                if a not in seen:
+                    seen.add(a)
+                    work.append(a)
+                    tt = f.term(a)
+                    if tt["k"] == "switch":
+                        ats |= guards.atoms(f, f.operand(tt["discr"], f.end_point(a)))
+        onesided = []
+        for at in ats:
+            if at[0] == "bin" and at[1] in ("Lt", "Le", "Gt", "Ge") and "lat_ts" in (_keys_deep(f, at[2]) | _keys_deep(f, at[3])):
+                has_abs = []
+                mir.walk(at, lambda y: (has_abs.append(1) if y[0] == "call" and isinstance(y[1], str) and
+                                        y[1].rsplit("::", 1)[-1] in ("abs", "powi", "is_nan") else None) or True)
+                if not has_abs:
+                    onesided.append(at)
+        cx.ob("R-LATTS-K0", "merc/lat_ts-even", not onesided,
+              "the decision to derive k_0 from lat_ts does not depend on the sign of lat_ts" if not onesided else
+              "merc::new applies lat_ts only on one side of an ordered comparison of the signed value (%s): a southern "
+              "(negative) lat_ts is silently ignored, although it names the same pair of parallels" %
+              mir.show(onesided[0], maxd=3)[:60], cx.where(f.term(bb)["span"]))
     if n == 0:
         cx.ob("R-LATTS-K0", "merc/k_0", False, "merc::new does not derive k_0 from lat_ts", cx.where(f.d["span"]))
     cx.count("R-LATTS-K0", "inserts", n)
